@@ -96,6 +96,7 @@ struct Gen {
     Program p;
     int nmods = 0;
     bool tasks_in_program = false;
+    std::vector<std::vector<long>> remembered_subs;   // C16: subscriptions that may be renewed in place (same topic and flags, fresh user data) next to a stash
     bool batching_mode = false;   // C09: this program configures batch time-outs (internal timers next to the user's) and therefore uses no one-shot source:
                                   // a one-shot source leaves its set when its event is received, which with batching is not when it is handed over
     bool thorough = false;
@@ -157,6 +158,7 @@ struct Gen {
                 if (batching_mode) fl &= ~1L;
                 long mod = rmod(), topic = rtopic(true);
                 p.add(where, "sub", {mod, topic, fl});
+                if (camp == "C16" && remembered_subs.size() < 6) remembered_subs.push_back({mod, topic, fl});
                 // bias: in-flight state around a one-shot subscription - a message pending for it, the topic subscribed again with other
                 // flags meanwhile, the loop asked to quit before the message is dispatched
                 if ((fl & 1) && topic < 5 && r.chance(0.35)) {
@@ -211,7 +213,11 @@ struct Gen {
             break;
         }
         case STASH:
-            if (r.chance(0.55)) p.add(where, "stash", {rmod(), (long)r.below(4)});
+            if (r.chance(0.55)) {
+                p.add(where, "stash", {rmod(), (long)r.below(4)});
+                // bias: the subscription the stashed message may have come through is renewed in place (its user data changes) before the unstash
+                if (!remembered_subs.empty() && r.chance(0.25)) { auto &rs = remembered_subs[r.below(remembered_subs.size())]; p.add(where, "sub", {rs[0], rs[1], rs[2]}); }
+            }
             else p.add(where, "unstash", {rmod(), r.chance(0.15) ? -1 : (long)r.range(1, 5)});
             break;
         case BECOME:
@@ -224,8 +230,8 @@ struct Gen {
             else p.add(where, "batch_timeout", {rmod(), (long)(r.chance(0.2) ? 0 : r.range(2, 7))});
             break;
         case TB: {
-            static const long rates[] = {0, 1, 10, 100, 1000, 100000, 1000000};
-            p.add(where, "tb", {rmod(), rates[r.below(7)], (long)r.below(12)});
+            static const long rates[] = {0, 1, 10, 100, 1000, 100000, 1000000, 65536, 131072};   // (also rates that do not fit 16 bits)
+            p.add(where, "tb", {rmod(), rates[r.below(9)], (long)r.below(12)});
             break;
         }
         case CTX: {
